@@ -58,7 +58,7 @@ def build(desc: dict[str, Any]) -> Any:
         return build_edges(rng)
     if kind == "csr":
         return build_csr(rng)
-    return build_misc(rng)
+    return build_misc(rng, bool(desc.get("dw")))
 
 
 def build_fn(rng: random.Random) -> Any:
@@ -171,7 +171,7 @@ def build_csr(rng: random.Random) -> Any:
     return pt.make_dict_of_named_arrays({"r": r, "s": pt.sum(r) + pt.sum(ev)})
 
 
-def build_misc(rng: random.Random) -> Any:
+def build_misc(rng: random.Random, dw: bool = False) -> Any:
     import pytato as pt
     from vf.vtags import VAxisTag, VTag
     x = pt.make_placeholder("x", (3, 4), np.float64, tags=frozenset({VTag(1)}))
@@ -185,5 +185,22 @@ def build_misc(rng: random.Random) -> Any:
     g = pt.expand_dims(y, 0) + pt.zeros((2, 4)) + pt.arange(4, dtype=np.dtype("float64"))
     h = x[pt.make_placeholder("i", (2,), np.int32), 1:3]
     k = pt.pad(y, 1) + pt.full(6, 2.0)
-    return pt.make_dict_of_named_arrays({"a": a, "b": b, "c": c, "d": d, "e": e, "f": f, "g": g,
-                                         "h": h, "k": k, "m": pt.amax(x, axis=0) @ y})
+    outs = {"a": a, "b": b, "c": c, "d": d, "e": e, "f": f, "g": g,
+            "h": h, "k": k, "m": pt.amax(x, axis=0) @ y}
+    if rng.random() < 0.6:
+        # a named array of a dictionary used as an operand of further nodes, a
+        # non-contiguous advanced index
+        inner = pt.make_dict_of_named_arrays({"p": x + 1, "q": y * 2})
+        i1 = pt.make_placeholder("i1", (2,), np.int64)
+        outs["n"] = inner["p"] * 2 + inner["q"]
+        z = pt.make_placeholder("z", (3, 4, 5), np.float64)
+        outs["r"] = z[i1, :, i1]
+        if dw:
+            # wrapped data (compares by identity: only where the check can cope), two
+            # wrappers over one buffer
+            buf = np.arange(12.0).reshape(3, 4)
+            dw1 = pt.make_data_wrapper(buf)
+            dw2 = pt.make_data_wrapper(buf, tags=frozenset({VTag(3)}))
+            outs["n2"] = inner["p"] * dw1
+            outs["o"] = dw2[i1, :, ][:, ::2] + pt.make_data_wrapper(np.ones(2))
+    return pt.make_dict_of_named_arrays(outs)
